@@ -21,6 +21,7 @@ type Scenario func() []Body
 
 type thread struct {
 	id       int
+	root     int // id of the scenario body on whose behalf this thread runs (itself, or the ancestor that spawned it)
 	resume   chan struct{}
 	done     bool
 	blocked  func() bool // non-nil: parked until it returns true
@@ -65,10 +66,11 @@ var Watchdog = 20 * time.Second
 
 var watchdog *time.Timer
 
-// CurrentThread returns the id of the running scheduler thread (-1 when no scheduler is active).
+// CurrentThread returns the id of the scenario body on whose behalf the running scheduler thread works: the body's own
+// thread id, also for goroutines the body's code started with a go statement (-1 when no scheduler is active).
 func CurrentThread() int {
 	if r := active; r != nil && r.cur != nil {
-		return r.cur.id
+		return r.cur.root
 	}
 	return -1
 }
@@ -102,6 +104,10 @@ func (r *runner) block(label string, try func() bool) {
 func (r *runner) spawn(f func()) {
 	// a new thread, parked at its start; the spawning thread keeps running
 	t := &thread{id: len(r.threads), resume: make(chan struct{})}
+	t.root = t.id
+	if r.cur != nil {
+		t.root = r.cur.root
+	}
 	r.threads = append(r.threads, t)
 	go func() {
 		<-t.resume
@@ -125,7 +131,7 @@ func Run(sc Scenario, prefix []int, horizon int) *Exec {
 	bodies := sc()
 	for i, b := range bodies {
 		b := b
-		t := &thread{id: i, resume: make(chan struct{})}
+		t := &thread{id: i, root: i, resume: make(chan struct{})}
 		r.threads = append(r.threads, t)
 		go func() {
 			<-t.resume
